@@ -120,6 +120,8 @@ class Engine(HeapMixin, ExprMixin, AccessMixin, CallMixin, StmtMixin, BytesMixin
     self.pure_depth = 0
     self.globals_used = set()
     self.ghost_hits = set()
+    self.anchor_maps = {}
+    self.anchor_drift = []
     self.assumes = []
 
   # ------------------------------------------------------------------ solver helpers
@@ -191,6 +193,7 @@ class Engine(HeapMixin, ExprMixin, AccessMixin, CallMixin, StmtMixin, BytesMixin
       res.error = '%s: %s' % (type(e).__name__, e)
     res.obligations = self.obligations
     res.dropped = sorted(self.dropped)
+    res.anchor_drift = list(self.anchor_drift)
     res.inlined = sorted(self.inlined)
     res.externs = sorted(self.externs_used)
     res.contracts = sorted(self.contracts_used)
